@@ -2019,10 +2019,25 @@ def _s_pearson(sz, rng, st, chk):
     lab = "Surrogates.test_pearson_correlation"
     N, T = sz["N"], sz["T"]
     o, s = rng.standard_normal((N, T)), rng.standard_normal((N, T))
-    got = chk.call(lab, _surr_obj(st, N, T).test_pearson_correlation, o.copy(), s.copy())
+    # the same values in another representation (chosen by the size: deterministic): Fortran order, a strided view,
+    # float32 - the kernels receive raw pointers, what they read must be these values whatever array carries them
+    rep_ = ("contiguous", "fortran", "strided", "float32")[(N + T) % 4]
+    if rep_ == "float32":
+        o, s = o.astype(np.float32), s.astype(np.float32)
+        oa, sa = o.copy(), s.copy()
+    elif rep_ == "fortran":
+        oa, sa = np.asfortranarray(o), np.asfortranarray(s)
+    elif rep_ == "strided":
+        bo, bs = np.zeros((N, 2 * T)), np.full((N, 2 * T), 7.0)
+        bo[:, ::2], bs[:, ::2] = o, s
+        oa, sa = bo[:, ::2], bs[:, ::2]
+    else:
+        oa, sa = o.copy(), s.copy()
+    got = chk.call(lab, _surr_obj(st, N, T).test_pearson_correlation, oa, sa)
     if got is FAILED or not chk.shape(lab, got, (N, N), np.float32):
         return
-    chk.value(lab, got, ref.surrogate_pearson(o, s), 1e-5, 1e-6, "correlation")
+    chk.value(lab, got, ref.surrogate_pearson(np.asarray(o, dtype=np.float64), np.asarray(s, dtype=np.float64)), 1e-5, 1e-6,
+              "correlation (%s input)" % rep_)
 
 
 def _l_tmi(tier):
